@@ -394,10 +394,9 @@ def _read_healsparse_fits_file_and_degrade(filename, pixels, nside_out, reductio
         cov_map_weight = HealSparseCoverage.read(weightfile)
         if cov_map_weight.nside_coverage != cov_map.nside_coverage:
             raise ValueError("The weightfile %s must have same coverage nside." % (weightfile))
-        cov_pix_weight, = np.where(cov_map_weight.coverage_mask)
-        if not np.all(np.isin(_pixels, cov_pix_weight)):
-            raise ValueError("The weightfile %s must have coverage in all the "
-                             "pixels to read." % (weightfile))
+        # Coverage pixels that the weight file does not cover are accepted only if
+        # the map has nothing to weight there (checked block by block below).
+        weight_cov_mask = cov_map_weight.coverage_mask
         use_weightfile = True
     elif weightfile is not None:
         raise Warning('Weightfile specified but wmean reduction mode is not set.  Ignoring weightfile')
@@ -531,6 +530,15 @@ def _read_healsparse_fits_file_and_degrade(filename, pixels, nside_out, reductio
                 pix_data = pix_data.ravel()
 
             if use_weightfile:
+                if not weight_cov_mask[pix]:
+                    if is_rec_array:
+                        any_valid = np.any(pix_data[primary] != sentinel)
+                    else:
+                        any_valid = np.any(pix_data != sentinel)
+                    if any_valid:
+                        wfits.close()
+                        raise ValueError("The weightfile %s must have coverage in all the "
+                                         "pixels to read." % (weightfile))
                 row_range_weight = [cov_index_map_temp_weight[pix],
                                     (cov_index_map_temp_weight[pix] + cov_map.nfine_per_cov)]
                 weight_values = wfits.read_ext_data('SPARSE', row_range=row_range_weight, col_range=col_range)
